@@ -34,7 +34,7 @@ TRUSTED = [
     'not modelled, the harness hands the model (material, geometry | LIKE n, '
     'options) and the IMP entries it generated; the tie runs the real '
     'tokenisation on the rendered text',
-    'float(token), normalize_float(token): tables filled by the harness from '
+    'float(token), datacard.to_float(token), normalize_float(token): tables filled by the harness from '
     'Python; int()/round() of a float and x**y: coq/C12/Exec.v (binary64), '
     'compared at 1e-9',
     'to_cos / normalize_transform (C04) stay symbolic in the model; '
@@ -95,7 +95,7 @@ def gen_expand_case(rng, malformed):
     if malformed:
         fault = rng.choice(['nofirst', 'trail_i', 'badcount', 'bare_m', 'log',
                             'neg', 'garbage', 'expected', 'expected_ok',
-                            'trail_log', 'j_then'])
+                            'trail_log', 'j_then', 'fortran', 'fortran'])
         if fault == 'nofirst':
             toks = [rng.choice(['2r', 'r', '3m', 'i', '2i', '2log'])] + toks
         elif fault == 'trail_i':
@@ -119,6 +119,17 @@ def gen_expand_case(rng, malformed):
         elif fault == 'garbage':
             toks.insert(rng.randint(0, len(toks)),
                         rng.choice(['x', '1..2', 'imp', '1e', '--1']))
+        elif fault == 'fortran':
+            # Fortran spellings and near misses, as entries, xM factors, nI
+            # bounds and nLOG bounds (logspace still uses float())
+            pos = rng.randint(1, len(toks))
+            toks[pos:pos] = rng.choice([
+                ['1.0+0'], ['6.40875-2'], ['1d'], ['d5'], ['1.5e+'], ['1+'],
+                ['--1+2'], ['1.5d+3', 'r'], ['2d0m'], ['2+0M'], ['1+0', 'i', '3+0'],
+                ['i', '5-1'], ['2i', '1D1'], ['1', '2log', '8+0'], ['1', '2log', '8'],
+                ['1', '1ilog', '2d0'], ['1', '2LOG', '8+0'],
+                ['1.5+3-2'], ['.5-1'], ['5.d0'], ['+2.+1'], ['1e5+2'], ['0x1+2'],
+                ['1_0+2'], ['1.+-2'], ['inf+1'], ['nan-1'], ['1d0d0']])
         elif fault == 'j_then':
             pos = rng.randint(1, len(toks))
             toks[pos:pos] = ['j', rng.choice(['2m', 'i', '2log', 'r']), '5']
@@ -497,6 +508,10 @@ CORPUS = [
      ['imp:n 0 4m 2'], [1, 2]),
     ('spellings-of-zero', [(1, ''), (2, ''), (3, ''), (4, ''), (5, ''), (6, '')],
      ['imp:n 1 0.0 0. 0e0 0.00 1'], [2, 3, 4, 5]),
+    ('fortran-spellings', [(1, ''), (2, ''), (3, ''), (4, ''), (5, ''), (6, '')],
+     ['imp:n 1.0+0 0.0+0 5-1 0d0 2+0m 0-3'], [2, 4, 5, 6]),
+    ('fortran-interpolation', [(1, ''), (2, ''), (3, ''), (4, '')],
+     ['imp:n 2d0 1i 0.0+0 1.5D+0'], [3]),
     ('position-not-id', [(30, ''), (10, ''), (20, '')], ['imp:n 0 1 1'], [30]),
     ('continuation-of-data-card', [(1, ''), (2, ''), (3, ''), (4, '')],
      ['imp:n 1', '      0 1', '      0'], [2, 4]),
